@@ -89,8 +89,16 @@ claim("C13",
       "real readers over a sparse in-memory file.",
       TRUST, "symbolic execution with I/O accounting on the symbolic file + z3 bound obligations; wide-offset witnesses", "4.13")
 
+claim("C10",
+      "The extent-line grammar is decided in z3's regular-expression theory on the real compiled RE_EXTENT_DESCRIPTOR (every "
+      "conformant line of a type the reader handles is in its language; counterexample strings are replayed on the real "
+      "parser). The assembly code - VMDK.__init__ size/offset bookkeeping, read_sectors, _read and StorageStream - is "
+      "executed symbolically over 1..3 extents of symbolic size (extent readers are stand-ins presenting 'extent k' bytes): "
+      "every request, incl. ones crossing extent boundaries and the tail over-read, equals the concatenation.",
+      TRUST, "z3 regex language inclusion on the real pattern + symbolic execution of the assembly code", "4.10")
+
 PENDING = "check not built yet in this round (planned: see DESIGN.md section 4)"
-for _p in ( "C09", "C10", "C11", "C14", "C15", "C17", "C20"):
+for _p in ( "C09", "C11", "C14", "C15", "C17", "C20"):
     NOT_APPLICABLE[_p] = PENDING
 NOT_APPLICABLE["C16"] = ("the property's content (cstruct writers, AES-GCM, PBKDF2) sits behind C boundaries that would have "
                          "to be stubbed; nothing of the repository's own arithmetic would remain to be decided (DESIGN 5)")
